@@ -17,7 +17,7 @@ Notation b_ploop := (ploop br b_pos br_len br_readbyte br_readn br_readbuf br_re
 Lemma bparse_S d sc mi ic r :
   bparse (S d) sc mi ic r =
   match nth_error sc mi with
-  | None => Err E_FUEL
+  | None => Err E_NOMODEL
   | Some m => b_ploop (bparse d sc) (S (Z.to_nat (br_len r))) m ic (init_pst m) (-1)%Z r
   end.
 Proof. reflexivity. Qed.
